@@ -236,7 +236,7 @@ def run(ctx):
         cft = [False, True, False, True, False]
 
     # ---- cases
-    ncases = 12000 if ctx.thorough() else 1500
+    ncases = 8000 if ctx.thorough() else 1500
     maxops = 200 if ctx.thorough() else 60
     cases = []   # (kind, line)
     corpus = os.path.join(ctx.pdir, "corpus.txt")
@@ -313,7 +313,7 @@ def run(ctx):
             samples.append({"case": line, "impl": impl_out[idx][:600], "model": (model_out[idx][:600] if model_out else None)})
 
     # ---- e2e: identical histories with and without cache
-    ne2e = 40 if ctx.thorough() else 8
+    ne2e = 30 if ctx.thorough() else 8
     # regression histories first (they failed on the tree before the fix 'cache clean-up ignores misplaced files'), then fresh ones
     e2e_lines = ["712448054 6 1", "561891451 6 1"]
     e2e_lines += ["%d %d %d" % (rng.randint(1, 10 ** 9), rng.choice([5, 6, 8]), 1 if j % 3 == 2 else 0) for j in range(ne2e - len(e2e_lines))]
